@@ -699,7 +699,7 @@ class Visitor(ast.NodeVisitor):
             args = []  # type: List[Any]
             for arg_node in node.args:
                 if isinstance(arg_node, ast.Starred):
-                    args.extend(self.visit(node=arg_node))
+                    args.extend(self.visit(node=arg_node.value))
                 else:
                     args.append(self.visit(node=arg_node))
 
